@@ -5,7 +5,8 @@ from .. import monitor, mon_prov, w_alg
 LEVEL = 'exploration'
 SHARDS = {'quick': 2, 'thorough': 16}
 BUDGET = {'quick': 70, 'thorough': 600}
-RULE = ('every signature returned by merge/embed/mask/forwards/signatures.signature/sigtools.signature in the workloads '
+RULE = ('forwards has a relation of its own (outer depths as they are, inner one deeper, inner sources kept); inner parameters may be spelled like the outer star parameters; a retrieved partial object is at depth 0. '
+        'every signature returned by merge/embed/mask/forwards/signatures.signature/sigtools.signature in the workloads '
         '(algebra over the universe incl. inner star parameters named like the outer ones, random expression trees whose '
         'results feed further operations and which re-use leaf signatures (one callable reached at several depths), partial retrieval, declared and discovered forwarding, corpus) is checked: '
         "keys == parameters + '+depths', lists non-empty and duplicate-free, every callable has a depth and declares the "
